@@ -1,4 +1,103 @@
-import Props.Lemmas
+/-
+  C02 — layout order follows the document.
+-/
+import Props.C01
+import Props.C03
 namespace Slinky.C02
-theorem placeholder : True := trivial
+open Slinky W
+
+/-- **segments in document order.** What `add_segment` writes for the list of segments is the
+concatenation, in document order, of what it writes for each of them. -/
+theorem segments_in_document_order (cx : Ctx) :
+    ∀ (segs : List Segment) (em : List Str) (ls : List Line) (em' : List Str),
+      addSegments cx em segs = .ok (ls, em') →
+      ∃ parts : List (List Line), parts.length = segs.length ∧ ls = parts.flatten ∧
+        ∀ i (hi : i < segs.length) (hp : i < parts.length), ∃ e1 e2, addSegment cx e1 segs[i] = .ok (parts[i], e2) := by
+  intro segs
+  induction segs with
+  | nil =>
+    intro em ls em' h
+    simp [addSegments] at h
+    exact ⟨[], rfl, by simp [h.1], by intro i hi; simp at hi⟩
+  | cons seg rest ih =>
+    intro em ls em' h
+    unfold addSegments at h
+    split at h
+    · contradiction
+    · rename_i a em1 ha
+      split at h
+      · contradiction
+      · rename_i b em2 hb
+        injection h with h
+        simp only [Prod.mk.injEq] at h
+        obtain ⟨parts, hlen, hflat, hparts⟩ := ih em1 b em2 hb
+        refine ⟨a :: parts, by simp [hlen], by simp [← h.1, hflat], ?_⟩
+        intro i hi hp
+        cases i with
+        | zero => exact ⟨em, em1, by simpa using ha⟩
+        | succ j =>
+          have hj : j < rest.length := by simpa using hi
+          have hpj : j < parts.length := by simpa using hp
+          obtain ⟨e1, e2, he⟩ := hparts j hj hpj
+          exact ⟨e1, e2, by simpa using he⟩
+
+/-- **allocatable before noload**: inside a segment the allocatable output section comes
+first, then the noload one (`C03.segment_statements`); and **groups follow the configured
+list**: the sections of one output section are written in list order, separated by one blank
+line. -/
+theorem groups_follow_the_list (f : Str → R (List Line)) :
+    sectionLoop f [] = .ok [] ∧
+    (∀ s, sectionLoop f [s] = f s) ∧
+    (∀ s t rest a b, f s = .ok a → sectionLoop f (t :: rest) = .ok b →
+        sectionLoop f (s :: t :: rest) = .ok (a ++ [.blank] ++ b)) := by
+  refine ⟨rfl, fun s => rfl, ?_⟩
+  intro s t rest a b ha hb
+  simp [sectionLoop, ha, hb]
+
+/-- **a group is start symbol, entries, end symbol** — the entries being the files of the
+segment in list order (`emit_section` walks `segment.files` front to back, and
+`C01.group_is_concatenation` does the same one level down: depth-first order). -/
+theorem entries_in_file_order (cx : Ctx) (seg : Segment) (sec : Str) (secs : List Str) (base0 d : Str)
+    (hb : cx.esc cx.o cx.d.settings.basePath = .ok base0) (hd : cx.esc cx.o seg.dir = .ok d)
+    (hr : cx.refPartial = false) :
+    emitSection cx seg sec secs =
+      concatMapE (fun file => emitEntry cx seg secs (fuelFor seg) file sec (pathPush base0 d) []) seg.files := by
+  simp [emitSection, hb, hd, hr, liftPath]
+
+/-- **sub-group sections directly follow their lead section for the same file**: for an object
+entry without `section_order`, the statements for a section `k` are the statement for `k`
+itself immediately followed by everything its sub-group sections contribute, in the order of
+the sub-group list. -/
+theorem subgroups_follow_lead (cx : Ctx) (seg : Segment) (secs : List Str) (n : Nat)
+    (p : Str) (c : Cond) (keep : Keep) (sec base : Str) (parents : List Str) (q : Str)
+    (hinc : shouldEmit cx.o c = true) (hnp : sec ∉ parents) (hesc : cx.esc cx.o p = .ok q)
+    (hr : cx.refPartial = false) :
+    emitEntry cx seg secs (n + 1) (.mk p .object [] 0 [] [] [] [] [] c keep) sec base parents
+      = (match concatMapE (fun other => emitEntry cx seg secs n (.mk p .object [] 0 [] [] [] [] [] c keep) other base (sec :: parents))
+                (subgroupsOf seg sec) with
+         | .ok b => .ok (.input (keepFor keep sec) (display (pathPush base q)) none sec seg.wildcardSections :: b)
+         | .error e => .error e) := by
+  rw [emitEntry]
+  simp only [FileInfo.cond, FileInfo.sectionOrder, FileInfo.kind, FileInfo.path, FileInfo.keep, hinc,
+    Bool.not_true, Bool.false_eq_true, if_false, hnp, sectionsToEmitHere, List.isEmpty_nil, if_true]
+  rw [C01.concatMapE_singleton]
+  simp only [hesc, liftPath, hr]
+  cases concatMapE (fun other => emitEntry cx seg secs n (.mk p .object [] 0 [] [] [] [] [] c keep) other base (sec :: parents))
+      (subgroupsOf seg sec) with
+  | error e => simp
+  | ok b => simp
+
+/-- **`section_order`**: the sections an entry contributes to a group are the group's own
+section (unless the entry moves it elsewhere) and every section the entry moves there, sorted
+by position in the section list being written, ties by name — whatever the map's order. -/
+theorem moved_sections_sorted (order : List (Str × Str)) (sec : Str) (secs : List Str) (h : order ≠ []) :
+    sectionsToEmitHere order sec secs =
+      sortBy (keyLe secs)
+        ((if (lookup sec order).isSome then [] else [sec])
+          ++ order.filterMap (fun kv => if kv.2 = sec then some kv.1 else none)) := by
+  unfold sectionsToEmitHere
+  cases order with
+  | nil => exact absurd rfl h
+  | cons a as => simp
+
 end Slinky.C02
